@@ -261,7 +261,7 @@ def plan(ck):
         for r in ("ok", "ref", "inl"):
             P.append(("man/S2J1W2/" + r, ["--mode", "dfs", "--pb", "3", "--max", "8000000"] + named, False))
             P.append(("man/S2J2W1/" + r, ["--mode", "dfs", "--pb", "4", "--max", "8000000"] + named, False))
-            P.append(("man/S2J2W2/" + r, ["--mode", "dfs", "--pb", "2", "--max", "8000000"] + named, False))
+            P.append(("man/S2J2W2/" + r, ["--mode", "dfs", "--pb", "2", "--max", "5000000"] + named, False))
         for sc in ("ss/S2J1W1/ok", "ss/S2J1W1/ref", "re/S2J1W1/ref", "re/S1J1W2/ref"):
             P.append((sc, ["--mode", "dfs", "--pb", "2", "--max", "4000000"] + named, False))
     # seeded random walks (switch at every wrapped operation, one spurious weak-CAS failure allowed)
@@ -276,7 +276,21 @@ def plan(ck):
         rnd.append("pool/S3J2W%d/run" % w)
     for sc in rnd:
         P.append((sc, ["--mode", "random", "--max", str(nrand), "--seed", seed, "--weak", "1"], False))
-    return P
+    # Where the switch is offered (.agents/YIELD_AT.md): every DFS pass runs a second time with the switch AFTER the
+    # operation (a fiber is stopped between its CAS/exchange and the plain code that follows it, e.g. the linking of the
+    # pushed node); random walks switch at both places.
+    # Quick tier: the two largest unbounded DFS passes (2x1x1 /ref and /inl) keep the after-pass for the thorough tier
+    # only (their /ok sibling and every other DFS pass run it in both tiers).
+    Q = []
+    for sc, args, exh in P:
+        if "dfs" in args:
+            Q.append((sc, args, exh))
+            if quick and exh and sc in ("man/S2J1W1/ref", "man/S2J1W1/inl"):
+                continue
+            Q.append((sc, args + ["--yield-at", "after"], exh))
+        else:
+            Q.append((sc, args + ["--yield-at", "both"], exh))
+    return Q
 
 
 def main(ck):
@@ -332,17 +346,21 @@ def opts_of(args):
     """the options of an exploration that a replay must repeat (they decide where choices are offered)"""
     keep, i = [], 0
     while i < len(args):
-        if args[i] in ("--pb", "--weak", "--param", "--max-choices"):
+        if args[i] in ("--pb", "--weak", "--param", "--max-choices", "--yield-at"):
             keep += [args[i], args[i + 1]]
         i += 1
     return keep
+
+
+def yield_at_of(args):
+    return args[args.index("--yield-at") + 1] if "--yield-at" in args else "before"
 
 
 def explore_and_compare(ck, exe):
     P = plan(ck)
     t0 = time.time()
     results = []
-    with concurrent.futures.ThreadPoolExecutor(max_workers=max(2, vlib.NPROC - 2)) as ex:
+    with concurrent.futures.ThreadPoolExecutor(max_workers=max(2, vlib.NPROC - 1)) as ex:
         futs = [(sc, args, exh, ex.submit(explore, exe, ["--exact", sc] + args, 1500 if ck.tier == "thorough" else 170))
                 for sc, args, exh in P]
         # the proof stage runs while the harness explores
@@ -358,7 +376,8 @@ def explore_and_compare(ck, exe):
                 ck.notes.append("exploration of %s %s hit the time limit; its partial output is not used" % (sc, " ".join(args)))
                 continue
             ck.hits.append(dict(what="harness crashed on %s (rc=%d) %s" % (sc, rc, (err or out)[-600:]), key="crash",
-                                replay=dict(harness="h_c07", scenario=sc, opts=opts_of(args), choices=m.group(2) if m else None)))
+                                replay=dict(harness="h_c07", scenario=sc, opts=opts_of(args), yield_at=yield_at_of(args),
+                                            choices=m.group(2) if m else None)))
             continue
         hs = [r for r in rows if "mode" in r]
         heads += hs
@@ -366,10 +385,11 @@ def explore_and_compare(ck, exe):
             label = "%s %s" % (sc, " ".join(a for a in args if a not in ("--max",) and not a.isdigit() or a in ("1", "2", "3")))
             if h["mode"] == "dfs" and h["exhaustive"]:
                 exhaustive_cfgs.append(dict(scenario=sc, executions=h["executions"], distinct=h["distinct"],
-                                            weak=h["weak_fail_budget"], yields="named" if "yields=named" in args else "all"))
+                                            weak=h["weak_fail_budget"], yields="named" if "yields=named" in args else "all",
+                                            yield_at=yield_at_of(args)))
             elif h["mode"] == "dfs":
                 bounded_cfgs.append(dict(scenario=sc, executions=h["executions"], distinct=h["distinct"],
-                                         preemption_bound=h["preemption_bound"], cut=h["cut"]))
+                                         preemption_bound=h["preemption_bound"], cut=h["cut"], yield_at=yield_at_of(args)))
                 if exh:
                     ck.notes.append("DFS of %s did not complete within --max; counted as bounded" % sc)
             else:
@@ -389,7 +409,7 @@ def explore_and_compare(ck, exe):
             ck.hits.append(dict(what="%s: %s" % (t["scenario"], t["fail"]),
                                 key=t["scenario"].split("/")[0] + ":" + re.sub(r"\d+\.\d+", "J", t["fail"])[:50],
                                 replay=dict(harness="h_c07", scenario=t["scenario"], choices=t["choices"],
-                                            trace=t["trace"], opts=opts_of(t["args"]))))
+                                            trace=t["trace"], opts=opts_of(t["args"]), yield_at=yield_at_of(t["args"]))))
     # ---- correspondence
     terms, metas = [], []
     seen = set()
@@ -481,7 +501,9 @@ def explore_and_compare(ck, exe):
                       "operations on the jobs word and inside jobs; exhaustive for that decision set) incl. one spurious weak-CAS failure; "
                       "preemption-bounded DFS (--pb, NOT exhaustive) for 2x1x2, 2x2x1, 2x2x2 in the quick tier, completed without a bound "
                       "for 2x1x2 and 2x2x1/ok in the thorough tier; seeded random walks (--weak 1) for 3x3, thread pools (1, 2 workers; "
-                      "Stop/HardStop/SoftStop at an explored point) and strand over strand; non-trivial = another thread's operation on the "
+                      "Stop/HardStop/SoftStop at an explored point) and strand over strand; every DFS pass is run with the switch offered "
+                      "before the operation and again with the switch offered after it (--yield-at after; quick tier omits the after-pass "
+                      "of 2x1x1 /ref and /inl), random walks offer it at both places; non-trivial = another thread's operation on the "
                       "word falls inside a thread's first..last operation on it, or a push lands between a batch's exchange and its "
                       "release CAS, or an activation is refused (Drop)")
     ck.cov["samples"] = [dict(scenario=t["scenario"], trace=t["trace"], choices=t["choices"], executions=t["count"])
@@ -503,6 +525,8 @@ def replay(ck, path):
         return 0
     exe, b = vlib.compile_harness("F", [HARNESS], "c07")
     args = ["--mode", "replay", "--exact", rp["scenario"], "--choices", rp["choices"]] + list(rp.get("opts", []))
+    if "--yield-at" not in args:
+        args += ["--yield-at", rp.get("yield_at", "before")]
     rows, out, err, rc = runner.run_harness(exe, args)
     print(out)
     bad = any(r.get("fail") for r in rows if "trace" in r)
